@@ -3,6 +3,7 @@ package main
 import (
 	"crypto/sha256"
 	"encoding/hex"
+	"fmt"
 	"os"
 	"path/filepath"
 	"sort"
@@ -63,3 +64,7 @@ func diffTree(a, b treeSnapshot) (changed, newDirs []string) {
 	sort.Strings(newDirs)
 	return
 }
+
+// scratchRoot returns a scratch directory name unique to this process (children of the harness
+// that need the parent's tree receive its paths as arguments).
+func scratchRoot(base string) string { return fmt.Sprintf("%s-%d", base, os.Getpid()) }
